@@ -258,3 +258,63 @@ def headers_damaged_by_construction(data, junk):
     tool under test makes of it."""
     bad = apply_junk(data, junk)
     return len(bad) < 72 or bad[0:2] != b"PH" or bad[48:50] != b"UH"
+
+
+# ---------------------------------------------------------------------------
+# I/O drawer payloads (well-formed trace buffers / ilog entries for the shipped m2c00 plugin)
+# ---------------------------------------------------------------------------
+_TRACE_HASHES = {}
+
+
+def trace_hashes(version):
+    """hash values of the trace string file for the drawer type of `version` (read from the repository's data
+    file – data, not code); [] if unavailable"""
+    import os, re
+    from sim import world
+    name = {1: "mexStringFile", 2: "nimitzStringFile"}.get(version)
+    if name is None:
+        return []
+    if name not in _TRACE_HASHES:
+        try:
+            with open(os.path.join(world.MODULES, "io_drawer", name)) as fd:
+                _TRACE_HASHES[name] = [int(m.group(1)) for line in fd for m in [re.match(r"\s*([0-9]+)\s*\|\|", line)] if m]
+        except OSError:
+            _TRACE_HASHES[name] = []
+    return _TRACE_HASHES[name]
+
+
+def gen_trace_payload(rng, version):
+    import struct
+    hashes = trace_hashes(version)
+    entries = b""
+    fam = rng.choice(hashes) % 100000 if hashes else 0
+    family = [h for h in hashes if h % 100000 == fam]
+    for _ in range(rng.randint(1, 6)):
+        c = rng.random()
+        if hashes and c < 0.35:
+            h = rng.choice(hashes)                                   # exact hit
+        elif hashes and c < 0.55:
+            h = rng.choice(family)                                   # exact hit inside one low-digits family
+        elif hashes and c < 0.85:
+            h = (fam if rng.random() < 0.6 else rng.choice(hashes) % 100000) + 100000 * rng.randrange(1, 900)   # partial match only
+        else:
+            h = rng.randrange(1 << 32)
+        binary = rng.random() < 0.2
+        data = bytes(rng.randrange(256) for _ in range(rng.choice([0, 4, 8, 12, 20, 7])))
+        pad = (-len(data)) % 4
+        size = 16 + len(data) + pad + 4
+        entries += struct.pack(">HHHHII", rng.randrange(1 << 16), rng.randrange(1 << 16), len(data), 0x4644 if binary else 0x4654,
+                               h & 0xFFFFFFFF, rng.randrange(1, 3000)) + data + bytes(pad) + struct.pack(">I", size)
+    total = 32 + len(entries)
+    hdr = bytes([1, 32, 0, ord("B")]) + rng.choice([b"IICS", b"POWR", b"FANS", b"INFO", b"ERRL"]).ljust(12, b"\x00") + bytes(4) \
+        + struct.pack(">III", total, rng.randrange(4), total)
+    return (hdr + entries).hex()
+
+
+def gen_ilog_payload(rng):
+    import struct
+    out = b""
+    for _ in range(rng.randint(1, 8)):
+        out += struct.pack(">HHI", rng.randrange(1 << 16), rng.randrange(1 << 16),
+                           rng.choice([0xE308310E, 0xE3083100, rng.randrange(1 << 32), 0x11000000 | rng.randrange(1 << 16)]))
+    return out.hex()
